@@ -25,6 +25,8 @@ const jlEvery = 25
 
 var jlRouteCount int
 var jlRouteDir string
+var jlRouteDecoyDir string
+var runJlOnceCount int
 
 func jlBin() string { return os.Getenv("VERIF_JL") }
 
@@ -113,15 +115,29 @@ func jlColsOf(ti, to []colDesc, alt int) ([]jlCol, []colDesc, []colDesc, bool) {
 	return cols, eff, effTo, true
 }
 
+// jlRouteInit makes the working directories of the route: an empty one, and a second one that holds a definition
+// file of its own — an inline template given with -t replaces the file's definition entirely (C19
+// `inline_replaces_file`), so one run in three with -t happens there and must not differ.
+func jlRouteInit() {
+	if jlRouteDir != "" {
+		return
+	}
+	jlRouteDir = jlScratch("route")
+	jlRouteDecoyDir = jlScratch("route-decoy")
+	os.WriteFile(filepath.Join(jlRouteDecoyDir, "row.yml"), []byte("columns:\n  - name: \"zz-decoy\"\n    output: \"numeric\"\n  - name: \"a\"\n    output: \"hidden\"\n  - name: \"c\"\n    input: \"binary\"\n    output: \"string(int)\"\n"), 0o644)
+}
+
 // runJlOnce feeds one line to the command and renders what it did like lineOutcome does.
 func runJlOnce(args []string, line []byte) string {
-	if jlRouteDir == "" {
-		jlRouteDir = jlScratch("route")
-	}
+	jlRouteInit()
 	ctx, cancel := context.WithTimeout(context.Background(), 30*time.Second) // a command that hangs is stopped and reported
 	defer cancel()
 	cmd := exec.CommandContext(ctx, jlBin(), args...)
 	cmd.Dir = jlRouteDir
+	runJlOnceCount++
+	if len(args) >= 2 && args[0] == "-t" && runJlOnceCount%3 == 0 {
+		cmd.Dir = jlRouteDecoyDir
+	}
 	cmd.Env = append(os.Environ(), "TZ=UTC", "HOME="+jlRouteDir)
 	cmd.Stdin = bytes.NewReader(append(append([]byte{}, line...), '\n'))
 	var out, errb bytes.Buffer
@@ -224,13 +240,15 @@ func emitStreamJl(cw *caseWriter, prop string, ti, to []colDesc, data []byte, un
 		eff = e
 		args = []string{"-t", inlineOf(cols)}
 	}
-	if jlRouteDir == "" {
-		jlRouteDir = jlScratch("route")
-	}
+	jlRouteInit()
 	ctx, cancel := context.WithTimeout(context.Background(), 120*time.Second)
 	defer cancel()
 	cmd := exec.CommandContext(ctx, jlBin(), args...)
 	cmd.Dir = jlRouteDir
+	runJlOnceCount++
+	if len(args) >= 2 && args[0] == "-t" && runJlOnceCount%3 == 0 {
+		cmd.Dir = jlRouteDecoyDir
+	}
 	cmd.Env = append(os.Environ(), "TZ=UTC", "HOME="+jlRouteDir)
 	reader := "-"
 	if unreadable {
